@@ -156,7 +156,7 @@ def check(chk):
     # of all labels (rule body shared with C11.NORM.pseudo)
     from . import c11 as _c11
     _rot = pm.cls("xeofs.single.eof_rotator.EOFRotator")
-    _c11._pseudo_norm(_RL(chk, "NORM.pseudo", "REINSERT.count"), _rot.methods["_fit_algorithm"], _rot.qualname)
+    _c11._pseudo_norm(_RL(chk, "NORM.pseudo", "REINSERT.count"), _rot.methods["_fit_algorithm"], _rot.qualname, missing_is_violation=False)
     san = pm.cls("xeofs.preprocessing.sanitizer.Sanitizer")
     tr = san.methods.get("transform")
     chk.require(tr is not None, "Sanitizer.transform vanished")
